@@ -112,6 +112,10 @@ def check_ops(inp):
             elif kind == "eq":
                 if not (o == twin) or not (twin == o) or hash(o) != hash(twin) or (o != twin):
                     fails.append(failure("object equals its twin", "not equal", note="after %s" % history[-6:-1]))
+            elif kind == "clone":
+                c = obs.clone(o, op[1])
+                if c is not None:
+                    o = c               # the sequence goes on with the copy: it is the same value
             elif kind == "compare_foreign":
                 x = foreign(op[1], ver, s, o)
                 r = [bool(o == x), bool(o != x), bool(x == o), bool(x != o)]
@@ -264,6 +268,14 @@ def hyp_part(n_examples, shard, steps):
             if not (o == twin) or not (twin == o) or hash(o) != hash(twin) or (o != twin):
                 self._fail("object equals its twin", "not equal", "eq/hash against a twin")
 
+        @rule(how=st.sampled_from(obs.CLONERS))
+        def clone(self, how):
+            self.ops.append(["clone", how])
+            c = obs.clone(self.o, how)
+            if c is not None:
+                self.o = c
+                self.cloned = True
+
         @rule(token=st.sampled_from(FOREIGN))
         def compare_foreign(self, token):
             self.ops.append(["compare_foreign", token])
@@ -282,6 +294,8 @@ def hyp_part(n_examples, shard, steps):
             if self.s is None:
                 return
             inp = {"ver": self.ver, "s": self.s, "ops": list(self.ops)}
+            if getattr(self, "cloned", False):
+                part.classes["continued-with-a-copy"] += 1
             if getattr(self, "foreign", False):
                 part.classes["compared-with-foreign-type"] += 1
             part.count(inp, nontrivial=(self.repeat_after_other or self.mutated) and len(self.ops) >= 3,
@@ -320,4 +334,4 @@ def run(tier, t0):
             "forced thread switches")
     return runner.finish(part, tier, t0, rule,
                          ["only observable results are compared (vars(obj) is not: benign memoisation must not alarm)"],
-                         required=("v2", "v3", "v4", "mutated", "len>=10", "compared-with-foreign-type", "shared-object", "shared:switches>=3"))
+                         required=("v2", "v3", "v4", "mutated", "len>=10", "compared-with-foreign-type", "continued-with-a-copy", "shared-object", "shared:switches>=3"))
